@@ -45,3 +45,83 @@ func (p *pkg) recordCheckBeforeMake(fn *ast.FuncDecl) bool {
 	})
 	return ifPos != 0 && makePos != 0 && ifPos < makePos
 }
+
+// geqLiteral finds `<x>.<field> >= LIT` in fn.
+func (p *pkg) geqLiteral(fn *ast.FuncDecl, field string) (int64, bool) {
+	var v int64
+	found := false
+	ast.Inspect(fn.Body, func(n ast.Node) bool {
+		if be, ok := n.(*ast.BinaryExpr); ok && be.Op == token.GEQ && !found {
+			if se, ok := be.X.(*ast.SelectorExpr); ok && se.Sel.Name == field {
+				if x, ok := p.eval(be.Y); ok {
+					v, found = x, true
+				}
+			}
+		}
+		return true
+	})
+	return v, found
+}
+
+func (p *pkg) countCalls(fn *ast.FuncDecl, callee string) int {
+	n := 0
+	ast.Inspect(fn.Body, func(node ast.Node) bool {
+		if ce, ok := node.(*ast.CallExpr); ok {
+			if id, ok := ce.Fun.(*ast.Ident); ok && id.Name == callee {
+				n++
+			}
+		}
+		return true
+	})
+	return n
+}
+
+// squashCopies: in every case clause of applySquashing's switch, an element write `authSys.AuxGIDs[i] = ...`
+// must be preceded by `authSys.AuxGIDs = <fresh slice made in this clause>`; writes into a local made with
+// make() are fine. Returns false if some clause writes the shared array first.
+func (p *pkg) squashCopies(fn *ast.FuncDecl) (bool, string) {
+	var sw *ast.SwitchStmt
+	ast.Inspect(fn.Body, func(n ast.Node) bool {
+		if s, ok := n.(*ast.SwitchStmt); ok && sw == nil {
+			sw = s
+		}
+		return true
+	})
+	if sw == nil {
+		return false, "no switch in applySquashing"
+	}
+	result := true
+	for _, st := range sw.Body.List {
+		cc := st.(*ast.CaseClause)
+		var reassignPos token.Pos
+		fresh := map[string]bool{}
+		for _, s := range cc.Body {
+			ast.Inspect(s, func(n ast.Node) bool {
+				as, ok := n.(*ast.AssignStmt)
+				if !ok {
+					return true
+				}
+				for i, lhs := range as.Lhs {
+					ls := exprString(p.fset, lhs)
+					if i < len(as.Rhs) {
+						if ce, ok := as.Rhs[i].(*ast.CallExpr); ok {
+							if id, ok := ce.Fun.(*ast.Ident); ok && id.Name == "make" {
+								fresh[ls] = true
+							}
+						}
+						if ls == "authSys.AuxGIDs" && fresh[exprString(p.fset, as.Rhs[i])] && reassignPos == 0 {
+							reassignPos = as.Pos()
+						}
+					}
+					if ie, ok := lhs.(*ast.IndexExpr); ok && exprString(p.fset, ie.X) == "authSys.AuxGIDs" {
+						if reassignPos == 0 || as.Pos() < reassignPos {
+							result = false
+						}
+					}
+				}
+				return true
+			})
+		}
+	}
+	return result, ""
+}
